@@ -143,10 +143,33 @@ def T9(m, R):
         if blk is None:
             problems.append('no `if match:` block follows')
         else:
-            ints = [n for n in ast.walk(blk) if isinstance(n, ast.Assign) and call_name(n.value) == 'int']
+            # conversions in source order: `name = int(..)`, or `L.append(int(..))` with L unpacked into names afterwards
+            ints = []
+            for n in ast.walk(blk):
+                if isinstance(n, ast.Assign) and call_name(n.value) == 'int' and isinstance(n.targets[0], ast.Name):
+                    ints.append((n.lineno, n.col_offset, n, n.value, n.targets[0].id))
+                elif isinstance(n, ast.Expr) and isinstance(n.value, ast.Call) and call_name(n.value) == 'append' and n.value.args and \
+                        call_name(n.value.args[0]) == 'int' and isinstance(n.value.func.value, ast.Name):
+                    ints.append((n.lineno, n.col_offset, n, n.value.args[0], ('list', n.value.func.value.id)))
+            ints.sort(key=lambda t_: t_[:2])
+            # names the list elements are unpacked into
+            unpack = {}
+            for n in ast.walk(blk):
+                if isinstance(n, ast.Assign) and isinstance(n.targets[0], ast.Tuple) and isinstance(n.value, ast.Name) and \
+                        all(isinstance(x, ast.Name) for x in n.targets[0].elts):
+                    unpack[n.value.id] = [x.id for x in n.targets[0].elts]
+            counters = {}
             got = []
-            for n in ints:
-                a = n.value.args
+            conv = []
+            for _l, _c, stn, icall, dest in ints:
+                if isinstance(dest, tuple):
+                    i_ = counters.get(dest[1], 0)
+                    counters[dest[1]] = i_ + 1
+                    names_ = unpack.get(dest[1])
+                    dest = names_[i_] if names_ and i_ < len(names_) else '%s[%d]' % (dest[1], i_)
+                conv.append((stn, icall, dest))
+            for n, icall, dest in conv:
+                a = icall.args
                 g_digits = _group_uses(a[0], var) if a else []
                 base = a[1] if len(a) > 1 else None
                 ok = False
@@ -154,7 +177,7 @@ def T9(m, R):
                     gb = _group_uses(base.test, var)
                     if len(gb) == 1 and is_call_group(base.test) and const_val(base.body) == 16 and const_val(base.orelse) == 10:
                         ok = (gb[0][1], g_digits[0][1]) in pairs
-                        got.append((norm(n.targets[0]), (gb[0][1], g_digits[0][1])))
+                        got.append((dest, (gb[0][1], g_digits[0][1])))
                 if not ok:
                     problems.append('%s does not read a (0x)?(digits) pair as int(digits, 16 if 0x else 10)' % short(n))
             if [p for _, p in got] != pairs and not problems:
